@@ -44,8 +44,8 @@ def body_clean(tier: str) -> Any:
 def body_two(tier: str) -> Any:
     def body(en: K.Engine, ch: M.Chooser) -> dict:
         scn = H.pick_scenario(ch, "quick")
-        if scn["verbose"] or scn["quiet"]:
-            raise K.Infeasible()
+        if scn["verbose"] or scn["quiet"] or scn.get("output"):
+            raise K.Infeasible()  # two runs told to write the same -o file interfere by request
         w = M.World(ch, "A")
         o1, _, _ = H.model_run(ch, scn, "A", w)
         # second run: same input and flags, or the other format
